@@ -218,6 +218,33 @@ class Blk(Ex):  # { let name = init; body }  — a block expression re-binding a
         return Blk(s.name, s.init.sub(m), s.body.sub({k: v for k, v in m.items() if k != s.name}))
 
 
+class IfLetEx(Ex):  # if let <pat> = <e> { <then> } else { <els> }  — the pattern variables are local to <then>
+    def __init__(s, p, e, then, els):
+        s.p, s.e, s.then, s.els = p, e, then, els
+
+    def rs(s, vk):
+        scrut = s.e.rs(vk)
+        if scrut.startswith("*"):
+            scrut = scrut[1:]   # matched through the reference (default binding modes): pattern variables are references
+        vk2 = dict(vk)
+        for n in s.p.vars():
+            vk2[n] = "ref"
+        return "if let %s = %s { %s } else { %s }" % (s.p.rs(), scrut, s.then.rs(vk2), s.els.rs(vk))
+
+    def ev(s, env):
+        e2 = dict(env)
+        if s.p.match(s.e.ev(env), e2):
+            return s.then.ev(e2)
+        return s.els.ev(env)
+
+    def vars(s):
+        return s.e.vars() | (s.then.vars() - set(s.p.vars())) | s.els.vars()
+
+    def sub(s, m):
+        m2 = {k: v for k, v in m.items() if k not in s.p.vars()}
+        return IfLetEx(s.p, s.e.sub(m), s.then.sub(m2), s.els.sub(m))
+
+
 # patterns (for ?pat arguments, if let, let, for)
 class PV:  # binds a variable
     def __init__(s, n):
@@ -607,8 +634,11 @@ def program_parts(p, struct_decl=None):
         head.append(struct_decl)
     inc = getattr(p, "include", None)
     body, src = [], []
-    for r in p.rels:
-        (src if inc and r.name in inc["rels"] else body).append(rel_rs(r))
+    for i, r in enumerate(p.rels):
+        # inc["rel_idx"] (positions in p.rels) takes precedence over inc["rels"] (names): needed when a relation is
+        # declared on both sides of the include
+        moved = inc and ((i in inc["rel_idx"]) if "rel_idx" in inc else (r.name in inc["rels"]))
+        (src if moved else body).append(rel_rs(r))
     for m in p.macros:
         body.append(macro_rs(m))
     for i, r in enumerate(p.rules):
